@@ -14,12 +14,17 @@ import (
 
 var vC09Names = []string{"f0", "f1", "f2", "f3", "f4"}
 
-func vC09ParamType(tag string) ddptypes.ParameterType {
+// vC09ParamType: Zahl, the type parameter T, or a list of T (generic as well)
+func vC09ParamType(tag string) (ddptypes.ParameterType, bool) {
 	var typ ddptypes.Type = ddptypes.ZAHL
-	if rt.Bool(tag + "generic") {
-		typ = ddptypes.GenericType{Name: "T"}
+	generic := false
+	switch rt.Choose(tag+"type", 3) {
+	case 1:
+		typ, generic = ddptypes.GenericType{Name: "T"}, true
+	case 2:
+		typ, generic = ddptypes.ListType{ElementType: ddptypes.GenericType{Name: "T"}}, true
 	}
-	return ddptypes.ParameterType{Type: typ, IsReference: rt.Bool(tag + "reference")}
+	return ddptypes.ParameterType{Type: typ, IsReference: rt.Bool(tag + "reference")}, generic
 }
 
 func vB2I(b bool) int { return rt.B2I(b) }
@@ -30,9 +35,10 @@ func vC09SortAliases(n int) {
 	lens, refs, gens := make([]int, n), make([]int, n), make([]int, n)
 	for i := 0; i < n; i++ {
 		lens[i] = rt.Choose("tokens", 3) + 1
-		pa, pb := vC09ParamType("a"), vC09ParamType("b")
+		pa, ga := vC09ParamType("a")
+		pb, gb := ddptypes.ParameterType{Type: ddptypes.ZAHL, IsReference: rt.Bool("breference")}, false
 		refs[i] = vB2I(pa.IsReference) + vB2I(pb.IsReference)
-		gens[i] = vB2I(ddptypes.IsGeneric(pa.Type)) + vB2I(ddptypes.IsGeneric(pb.Type))
+		gens[i] = vB2I(ga) + vB2I(gb)
 		aliases[i] = &ast.FuncAlias{
 			Tokens: make([]token.Token, lens[i]),
 			Func:   &ast.FuncDecl{NameTok: token.Token{Type: token.IDENTIFIER, Literal: vC09Names[i]}},
